@@ -267,6 +267,12 @@ pub(crate) async fn shared_rng(
     let id_bytes = (i as u16).to_be_bytes();
     buf_id[32..].copy_from_slice(&id_bytes);
     let commitment = commit(&buf_id);
+    #[cfg(feature = "__verif")]
+    let buf = {
+        let mut b = buf;
+        crate::verif::tap_bytes("shared_rng_seed", &mut b);
+        b
+    };
 
     // Step 2) a) Send the commitments to all parties for multi-party cointossing.
     // Broadcast multi-party commitments.
@@ -332,6 +338,14 @@ pub(crate) async fn shared_rng_pairwise(
         bufvec_id[k][32..].copy_from_slice(&id_bytes);
         commitment_vec[k][0] = commit(&bufvec_id[k]);
     }
+    #[cfg(feature = "__verif")]
+    let bufvec = {
+        let mut b = bufvec;
+        for v in b.iter_mut() {
+            crate::verif::tap_bytes("pairwise_rng_seed", v);
+        }
+        b
+    };
 
     // Step 2) Send and receive commitments concurrently for pairwise cointossing.
 
@@ -456,6 +470,8 @@ async fn fabitn(
     let r: Vec<Vec<Block>> = (0..three_rho)
         .map(|_| (0..blocks).map(|_| aes_rand.random()).collect())
         .collect();
+    #[cfg(feature = "__verif")]
+    crate::verif::probe("fabitn_r0", bytemuck::bytes_of(&r[0][0]));
 
     // Step 3 b) Compute xj and xjmac for each party, broadcast xj.
     // We batch messages and send xjmac with xj as well, as from Step 3 d).
@@ -951,6 +967,11 @@ async fn faand(
     // Use SliceRandom::shuffle for unbiased random permutation
     let mut indices: Vec<usize> = (0..lprime).collect();
     indices.shuffle(shared_rand);
+    #[cfg(feature = "__verif")]
+    crate::verif::probe(
+        "bucket_perm",
+        &indices.iter().flat_map(|x| (*x as u32).to_le_bytes()).collect::<Vec<u8>>(),
+    );
 
     // Distribute shuffled indices into buckets using chunks
     // Since indices.len() == lprime == l * b, chunks_exact(b) gives us exactly l chunks of size b
@@ -1023,6 +1044,11 @@ pub(crate) async fn beaver_aand(
 
         de_shares.push((a ^ alpha, b ^ beta));
         d_e_dmac_emac.push((a.0 ^ alpha.0, b.0 ^ beta.0, Mac(0), Mac(0)));
+    }
+    #[cfg(feature = "__verif")]
+    for (j, (d, e, _, _)) in d_e_dmac_emac.iter_mut().enumerate() {
+        *d = crate::verif::tap_bool("beaver_d_own", j, *d);
+        *e = crate::verif::tap_bool("beaver_e_own", j, *e);
     }
     let scatter_data: Vec<Vec<(bool, bool, Mac, Mac)>> = (0..n)
         .map(|k| {
@@ -1099,6 +1125,12 @@ async fn check_dvalue(
         let (_, y, _) = &bucket[0];
         for (_, y_next, _) in bucket.iter().skip(1) {
             d_values[j].push(y.0 ^ y_next.0);
+        }
+    }
+    #[cfg(feature = "__verif")]
+    for (j, d) in d_values.iter_mut().enumerate() {
+        for (m, d) in d.iter_mut().enumerate() {
+            *d = crate::verif::tap_bool("dvalue_own", j * 8 + m, *d);
         }
     }
 
